@@ -1009,3 +1009,286 @@ def a_lines(cx, rule):
         cx.add(rule, 'pairing/pre', ok, 'the Miller loop precomputes pre[0..5] with weights %s in the coordinates of Q; the chord-line function is graded with %s' % (dim1(got) if got else None, dim1(pre_grades)), pf.loc())
         n += 1
     cx.floor(rule, 'line-functions', n, 4, 'pairing line functions graded')
+
+
+# ---------------------------------------------------------------------------------------------------------------------
+# ExprFlow: field-sensitive composition of straight-line code.  The same forward dataflow as the grader, but the
+# leaves are canonical expression texts: `r.c1 = a.c1.conjugate(); r.c1 = r.c1.fp_mul_fp(&K);` and
+# `Fp4 { c0: .., c1: a.c1.conjugate().fp_mul_fp(&K) }` both give  c1 = fp_mul_fp(conjugate($self.c1), K).
+# Statement order, temporaries, zero-initialised builders and chained calls do not matter; what each coordinate of the
+# result IS does.
+
+class ExprFlow(Grader):
+    def __init__(self, F, fn, commut=()):
+        Grader.__init__(self, F, fn, TOWER)
+        self.commut = set(commut)
+
+    def nfields(self, ty):
+        sh = shape_of_ty(ty)
+        if sh in ('Fp2', 'Fp4'):
+            return ['c0', 'c1']
+        if sh == 'Fp12':
+            return ['c0', 'c1', 'c2']
+        if isinstance(sh, tuple) and sh[0] == 'pt':
+            return ['x', 'y', 'z']
+        if isinstance(sh, tuple) and sh[0] == 'arr':
+            return [str(i) for i in range(sh[2])]
+        return None
+
+    def show(self, v):
+        if isinstance(v, list):
+            return '{' + ', '.join(self.show(x) for x in v) + '}'
+        return str(v)
+
+    def join(self, a, b):
+        if a is None:
+            return b
+        if b is None:
+            return a
+        if a == b:
+            return a
+        if isinstance(a, list) and isinstance(b, list) and len(a) == len(b):
+            return [self.join(x, y) for x, y in zip(a, b)]
+        return 'phi(%s)' % ' | '.join(sorted({self.show(a), self.show(b)}))
+
+    def const_tree(self, c, shape):
+        it = c.get('item') or c.get('static')
+        if it:
+            return last(it)
+        if 'promoted' in c and c['promoted'] < len(self.fn.promoted):
+            # `&CONST` is a reference to a promoted temporary that holds the constant
+            for bl in self.fn.promoted[c['promoted']]['blocks']:
+                for st in bl['stmts']:
+                    rv = st.get('rv') or {}
+                    op = rv.get('op') if rv.get('k') == 'use' else None
+                    if op and op.get('k') == 'const':
+                        cc = op['c']
+                        if cc.get('item') or cc.get('static'):
+                            return last(cc.get('item') or cc.get('static'))
+                        if cc.get('bytes'):
+                            return 'bytes:' + cc['bytes']
+        if c.get('k') == 'int':
+            return str(c.get('bits'))
+        if c.get('bytes'):
+            return 'bytes:' + c['bytes']
+        return 'const'
+
+    def read(self, st, pl):
+        t = st.get(pl['l'])
+        if t is None:
+            t = '?' + self.fn.local_name(pl['l'])
+        if isinstance(t, tuple) and t and t[0] in ('REF', 'VIEW') and pl['p'] and pl['p'][0] == 'deref':
+            under = st.get(t[1])
+            t = (under[t[2]:t[3]] if isinstance(under, list) else under) if t[0] == 'VIEW' else under
+        for p in pl['p']:
+            if p == 'deref':
+                continue
+            nm = None
+            i = None
+            if isinstance(p, dict) and 'f' in p:
+                i, nm = p['f'], p.get('name', str(p['f']))
+            elif isinstance(p, dict) and 'cidx' in p:
+                i, nm = p['cidx'], str(p['cidx'])
+            elif isinstance(p, dict) and 'idx' in p:
+                ci = st.get('#const', {}).get(p['idx'])
+                if ci is None:
+                    return '%s[?]' % self.show(t)
+                i, nm = ci, str(ci)
+            else:
+                return '%s.?' % self.show(t)
+            if isinstance(t, list) and i < len(t):
+                t = t[i]
+            else:
+                t = '%s.%s' % (self.show(t), nm)
+        return t
+
+    def write(self, st, pl, val):
+        projs = [p for p in pl['p'] if p != 'deref']
+        if not projs:
+            st[pl['l']] = val
+            return
+        base = st.get(pl['l'])
+
+        def explode(v, ty):
+            names = self.nfields(ty)
+            if isinstance(v, list) or names is None:
+                return v
+            return ['%s.%s' % (v, n_) for n_ in names] if v is not None else [None] * len(names)
+
+        def put(t, ps, ty):
+            p = ps[0]
+            i = p.get('f', p.get('cidx')) if isinstance(p, dict) else None
+            if i is None and isinstance(p, dict) and 'idx' in p:
+                i = st.get('#const', {}).get(p['idx'])
+            t = explode(t, ty)
+            if i is None or not isinstance(t, list) or i >= len(t):
+                return '?'
+            t = list(t)
+            sub_ty = p.get('ty') if isinstance(p, dict) else None
+            t[i] = val if len(ps) == 1 else put(t[i], ps[1:], sub_ty)
+            return t
+        st[pl['l']] = put(base, projs, self.fn.local_ty(pl['l']))
+
+    def operand(self, st, op, hint=None):
+        if op['k'] in ('copy', 'move'):
+            return self.read(st, op['pl'])
+        if op['k'] == 'const':
+            return self.const_tree(op['c'], None)
+        return '?'
+
+    def rvalue(self, st, rv, b, dest_ty):
+        k = rv['k']
+        if k == 'use':
+            return self.operand(st, rv['op'])
+        if k == 'ref':
+            r_ = self.ref_of(st, rv)
+            if r_ is not None:
+                return r_
+            return self.read(st, rv['pl'])
+        if k == 'aggr' and rv.get('akind') in ('adt', 'array', 'tuple'):
+            return [self.operand(st, o) for o in rv['ops']]
+        if k == 'repeat':
+            import re as _re
+            v = self.operand(st, rv['op'])
+            m_ = _re.match(r'^\[.*; (\d+)\]$', (dest_ty or '').strip())
+            if m_ and int(m_.group(1)) <= 64:
+                return [v for _ in range(int(m_.group(1)))]
+            return 'repeat(%s)' % self.show(v)
+        if k == 'cast' and 'op' in rv:
+            v = self.operand(st, rv['op'])
+            if (rv.get('kind') or '').startswith('IntToInt') and rv.get('ty') != rv.get('from_ty'):
+                return '(%s as %s)' % (self.show(v), rv.get('ty'))
+            return v
+        if k == 'binop':
+            return '%s(%s, %s)' % (rv['op'].replace('WithOverflow', ''), self.show(self.operand(st, rv['a'])), self.show(self.operand(st, rv['b'])))
+        return '?'
+
+    # a mutable borrow of a whole local keeps its identity, so that slice views and in-place copies can be modelled
+    def ref_of(self, st, rv):
+        pl = rv['pl']
+        projs = [p for p in pl['p'] if p != 'deref']
+        if rv.get('mut') and not projs:
+            cur = st.get(pl['l'])
+            if pl['p'] == ['deref'] and isinstance(cur, tuple) and cur and cur[0] in ('REF', 'VIEW'):
+                return cur                      # reborrow
+            if not pl['p']:
+                return ('REF', pl['l'])
+        return None
+
+    def call(self, st, t, b):
+        c = t['fn']
+        if c['k'] != 'def':
+            return '?'
+        ln = last(c['name'])
+        args = [self.operand(st, a) for a in t['args']]
+        r_ = self.mutation(st, ln, args, t)
+        if r_ is not None:
+            return r_
+        args = [(st.get(a[1]) if isinstance(a, tuple) and a and a[0] == 'REF' else a) for a in args]
+        self.call_log = getattr(self, 'call_log', [])
+        self.call_log.append((b, c['name'], args))      # argument VALUES at every call (for rules about what is handed over)
+        if ln in ('clone', 'deref', 'borrow', 'as_ref', 'from', 'into') and args:
+            return args[0]
+        if ln == 'zero' and not args:
+            return 'zero()'
+        sa = [self.show(a) for a in args]
+        if ln in self.commut:
+            sa = sorted(sa)
+        return '%s(%s)' % (ln, ', '.join(sa))
+
+    def const_range(self, v):
+        """(start, end) of a Range / RangeTo / RangeFrom aggregate value with constant bounds (end None = open)"""
+        if isinstance(v, list) and all(isinstance(x, str) and x.isdigit() for x in v):
+            if len(v) == 2:
+                return int(v[0]), int(v[1])
+            if len(v) == 1:
+                return int(v[0]), None
+        return None
+
+    def mutation(self, st, ln, args, t):
+        """in-place updates of byte arrays through &mut borrows: x[a..b] views, copy_from_slice, copy_within, fill"""
+        if not args or not (isinstance(args[0], tuple) and args[0] and args[0][0] in ('REF', 'VIEW')):
+            return None
+        tgt = args[0]
+        l = tgt[1]
+        arr = st.get(l)
+        if not isinstance(arr, list):
+            return None
+        lo, hi = (tgt[2], tgt[3]) if tgt[0] == 'VIEW' else (0, len(arr))
+        if ln in ('index_mut', 'index') and len(args) == 2:
+            kind = None
+            a1 = t['args'][1]
+            ty1 = self.fn.local_ty(a1['pl']['l']) if a1['k'] in ('copy', 'move') else (a1.get('c') or {}).get('ty', '')
+            r = self.const_range(args[1])
+            if r is None:
+                return None
+            if 'RangeTo<' in ty1:
+                a_, b_ = 0, r[0]
+            elif 'RangeFrom<' in ty1:
+                a_, b_ = r[0], hi - lo
+            elif 'RangeFull' in ty1:
+                a_, b_ = 0, hi - lo
+            else:
+                a_, b_ = r[0], (r[1] if r[1] is not None else hi - lo)
+            return ('VIEW', l, lo + a_, lo + b_)
+        if ln in ('copy_from_slice', 'clone_from_slice') and len(args) == 2:
+            src = args[1]
+            n = hi - lo
+            if isinstance(src, tuple) and src and src[0] in ('REF', 'VIEW'):
+                sa = st.get(src[1])
+                src = sa[src[2]:src[3]] if src[0] == 'VIEW' and isinstance(sa, list) else sa
+            if isinstance(src, list) and len(src) == n:
+                vals = list(src)
+            elif isinstance(src, str) and src.startswith('to_be_bytes(') and src.endswith(')') and n in (2, 4, 8, 16):
+                x = src[len('to_be_bytes('):-1]
+                vals = ['(Shr(%s, %d) as u8)' % (x, 8 * (n - 1 - k)) if k < n - 1 else '(%s as u8)' % x for k in range(n)]
+            else:
+                vals = ['%s[%d]' % (self.show(src), k) for k in range(n)]
+            new = list(arr)
+            new[lo:hi] = vals
+            st[l] = new
+            return '()'
+        if ln == 'copy_within' and len(args) == 3:
+            r = self.const_range(args[1])
+            d = args[2]
+            if r is None or not (isinstance(d, str) and d.isdigit()):
+                return None
+            a_, b_ = r[0], (r[1] if r[1] is not None else hi - lo)
+            new = list(arr)
+            seg = arr[lo + a_:lo + b_]
+            new[lo + int(d):lo + int(d) + len(seg)] = seg
+            st[l] = new
+            return '()'
+        if ln == 'fill' and len(args) == 2:
+            new = list(arr)
+            for k in range(lo, hi):
+                new[k] = args[1]
+            st[l] = new
+            return '()'
+        return None
+
+    def result(self):
+        """flattened {path: expression} of the returned value(s), joined over the return paths"""
+        init = {}
+        for i in range(1, self.fn.arg_count + 1):
+            init[i] = '$' + self.fn.local_name(i)
+        out = self.run(init)
+        flat = {}
+
+        def walk(v, path, ty):
+            names = self.nfields(ty) if ty else None
+            if isinstance(v, list):
+                for i, x in enumerate(v):
+                    nm = names[i] if names and i < len(names) else str(i)
+                    sub = None
+                    if ty:
+                        ad = self.F.adts.get('gm_sm9::' + strip_ref(ty)) or self.F.adts.get(strip_ref(ty))
+                        if ad and ad.get('variants'):
+                            fs = ad['variants'][0]['fields']
+                            if i < len(fs):
+                                sub = fs[i]['ty']
+                    walk(x, path + [nm], sub)
+            else:
+                flat['.'.join(path) or 'ret'] = v
+        walk(out, [], self.fn.local_ty(0))
+        return flat
